@@ -286,6 +286,7 @@ STREAM_PAIRS = [
 def run(ctx):
     Fmt.prog = ctx.prog
     r11d(ctx)
+    r11g(ctx)
     r11e(ctx)
     prog = ctx.prog
     n = 0
@@ -583,3 +584,36 @@ def r11e(ctx):
             ctx.bad('R11e', key, 'the importers of an object and of its secret accept different dimension ranges: header limits %s versus %s -- '
                     'objects of some admissible size export but do not import' % (la, lb), fb)
     ctx.floor('R11e', n, 3)
+
+
+def r11g(ctx):
+    """the integer text reader (operator>>(istream&, mpz_ptr)) is the mirror of the writer, which emits every value whatever
+    its size: the reader may refuse on the state of the stream, on the line length it can buffer and on the verdict of
+    mpz_set_str -- a refusal that depends on the *parsed value* (its bit length, a comparison) is a restriction the writer
+    does not have: such values are exported and cannot be imported again, and every record that contains one fails with it"""
+    prog = ctx.prog
+    fs = [f for f in prog.by_q.get('operator>>', []) if len(f['params']) == 2 and '__mpz_struct' in f['params'][1]['t'] and 'istream' in f['params'][0]['t'] and f.get('body')]
+    if not fs:
+        from ..facts import AnalysisBroken
+        raise AnalysisBroken('operator>>(std::istream&, mpz_ptr) not found')
+    f = fs[0]
+    a = ctx.analysis(f)
+    T = a.T
+
+    def parsed(t):
+        return T.contains(t, lambda z: z[0] == 'out' and z[1] == 'mpz_set_str' and z[2] == 0)
+    bad = None
+    nref = 0
+    sites = [(n_, st) for n_, kind, val, st in a.exits() if kind == 'throw']
+    sites += [(None, a.instate[nid]) for nid, ev in a.all_events('mcall') if ev[1].split('::')[-1] == 'setstate']
+    for n_, st in sites:
+        nref += 1
+        for fa in st.facts:
+            if parsed(fa):
+                bad = T.show(fa, 4)
+    if bad:
+        ctx.bad('R11g', 'R11g:reader-refusals', 'the integer reader refuses on a property of the parsed value (%s): the writer emits such values, so they do not '
+                'round-trip and every record that contains one fails to import' % bad[:160], f)
+    else:
+        ctx.ok('R11g', 'R11g:reader-refusals', 'the %d refusing sites of the integer reader depend on the stream, the line buffer and the verdict of mpz_set_str only' % nref, f)
+    ctx.floor('R11g', nref, 1)
